@@ -30,10 +30,12 @@ func init() {
 		for mode := int64(0); mode < modes; mode++ {
 			cfgs = append(cfgs, &HarnessCfg{Name: "VerifC11_ScanDuringWrite", Pkg: pebPkg, Solver: "z3", MaxPaths: 2000000, EngineReplay: true,
 				Params: map[string]int64{"mode": mode}, Stubs: map[string]Intrinsic{detPkg + ".MatchSignature": matchSignatureContract}})
+			cfgs = append(cfgs, &HarnessCfg{Name: "VerifC11_ScanInsideWrite", Pkg: pebPkg, Solver: "z3", MaxPaths: 2000000, EngineReplay: true,
+				Params: map[string]int64{"mode": mode}, Stubs: map[string]Intrinsic{detPkg + ".MatchSignature": matchSignatureContract}})
 		}
 		c.Assumptions = append(c.Assumptions, pebbleAssumptions...)
 		c.Assumptions = append(c.Assumptions,
-			"partial: interleavings at the granularity of database API calls - one writer operation (flip a signature to a version with other hashes/entropy, delete it, delete and re-add, rebuild indexes) runs as a block before any one of the reader's snapshot/iterator/get calls (the position is a solver variable); the reader is ScanTopology or ScanTopologyExact over one signature",
+			"partial: interleavings at the granularity of database API calls - one writer operation (flip a signature to a version with other hashes/entropy, delete it, delete and re-add, rebuild indexes) runs as a block before any one of the reader's snapshot/iterator/get calls (the position is a solver variable); and the dual schedule: the whole scan runs as a block before any one of the writer's own commits (db.Set / db.Delete / batch.Commit), which exposes updates torn over several commits; the reader is ScanTopology or ScanTopologyExact over one signature",
 			"detection.MatchSignature is replaced by its contract (a confidence per signature version, NaN or in [0,1])",
 			"absence of data races, the JSON store's locking, and interleavings inside a Pebble call are NOT covered; schedules cannot be forced natively, so counterexamples are confirmed by concrete re-execution of the code's SSA")
 		c.runModeT([]string{"pkg/storage/pebbledb"}, cfgs)
